@@ -59,6 +59,7 @@ extern "C" void harness_c09_value()
     int shape = verif_param("shape", -1) >= 0 ? (int)verif_param("shape", -1) : (int)verif_choice("shape", 6);
     RCP<const Basic> e;
     double v;
+    bool oppositeFactors = false;
     switch (shape) {
         case 0: { // (l1)^k, k = 2..4
             int k = 2 + (int)verif_choice("k", verif_param("kmax", 3) - 1);
@@ -89,6 +90,7 @@ extern "C" void harness_c09_value()
         case 4: { // negative power: l1 * l2^-1 stays a quotient; (l1*l2)^-2
             Lin a = lin("a", 2, B, env, false), b = lin("b", 2, B, env, false);
             verif_assume(a.v != 0 && b.v != 0);
+            oppositeFactors = eq(*add(a.e, b.e), *zero);
             e = pow(mul(a.e, b.e), integer(-2));
             v = 1.0 / (a.v * b.v * a.v * b.v);
             break;
@@ -105,7 +107,11 @@ extern "C" void harness_c09_value()
     verif_assert_req(ve::ev(*r, env), v, "expand(e) has the value of e");
     verif_assert_req(ve::ev(*e, env), v, "the unexpanded construction has the value of the recipe");
     verif_assert(expanded(*r), "expand(e) contains no product or positive power of a sum");
+    // known finding: l**-2 * (-l)**-2 expands to (l^2 expanded)**-2, whose square a second expand multiplies out
+    bool known = oppositeFactors && verif_known("C09/expand-not-idempotent-merged-negative-powers", true);
     verif_assert(eq(*expand(r), *r), "expand is idempotent");
+    if (known)
+        verif_known_end();
     VERIF_END();
 }
 // identity decision: (a x + b)(c x + d) against e x^2 + f x + g with symbolic integer coefficients
